@@ -549,6 +549,11 @@ class IEG:
         site = (f.body.path, n.bb)
         fe = self.resolve(f, t["args"][0], (n.bb, -1))
         if not cos:
+            cb = self.local_callee(f, func)
+            if cb is not None and not cb.is_coroutine:
+                # a hand-written `impl Future` of this crate: its poll method runs at the await like any other call
+                child = self._new_frame(cb, f, n.bb, 'call', self.call_subst(f, func, cb), call_term=t)
+                return [(self._node(child, 0, None), 'call')]
             return [(nxt, 'await')]
         s = aw.get("s", "")
         coroutines = [b for b in cos if b.is_coroutine]
